@@ -6,7 +6,9 @@ use crate::tree::*;
 use serde_json::{json, Value};
 use std::path::{Path, PathBuf};
 use std::process::{Command, Stdio};
+use std::collections::BTreeMap;
 use std::sync::atomic::{AtomicU64, Ordering};
+use std::sync::Mutex;
 use std::time::{Duration, Instant};
 
 pub const TIMEOUT: Duration = Duration::from_secs(20);
@@ -164,6 +166,31 @@ pub enum RunError {
     Io(String),
 }
 
+/// Children currently running: pid -> (deadline, killed by the watchdog).
+static RUNNING: Mutex<BTreeMap<u32, (Instant, bool)>> = Mutex::new(BTreeMap::new());
+
+/// Blocking wait; a single watchdog thread kills children that pass their deadline. Returns None for a
+/// child that had to be killed. (No polling: with 16 workers a poll loop costs more than the children.)
+fn wait_with_deadline(child: &mut std::process::Child) -> std::io::Result<Option<std::process::ExitStatus>> {
+    static WATCHDOG: std::sync::Once = std::sync::Once::new();
+    WATCHDOG.call_once(|| {
+        std::thread::spawn(|| loop {
+            std::thread::sleep(Duration::from_millis(250));
+            for (pid, (deadline, killed)) in RUNNING.lock().unwrap().iter_mut() {
+                if !*killed && Instant::now() > *deadline {
+                    // SAFETY: the pid is still registered, i.e. not yet reaped, so it cannot have been reused.
+                    unsafe { libc::kill(*pid as i32, libc::SIGKILL) };
+                    *killed = true;
+                }
+            }
+        });
+    });
+    RUNNING.lock().unwrap().insert(child.id(), (Instant::now() + TIMEOUT, false));
+    let status = child.wait();
+    let killed = RUNNING.lock().unwrap().remove(&child.id()).is_some_and(|e| e.1);
+    Ok(if killed { None } else { Some(status?) })
+}
+
 fn apply_edits(root: &Path, edits: &[Edit]) -> std::io::Result<()> {
     for e in edits {
         match e {
@@ -213,17 +240,9 @@ fn run_case_inner(case: &Case, bins: &Bins, work: &Path) -> Result<Vec<StepResul
             .stderr(std::fs::File::create(&se).map_err(io)?)
             .spawn()
             .map_err(io)?;
-        let start = Instant::now();
-        let status = loop {
-            if let Some(s) = child.try_wait().map_err(io)? {
-                break s;
-            }
-            if start.elapsed() > TIMEOUT {
-                let _ = child.kill();
-                let _ = child.wait();
-                return Err(RunError::Timeout(format!("{} {}", prog.display(), args.join(" "))));
-            }
-            std::thread::sleep(Duration::from_micros(200));
+        let status = wait_with_deadline(&mut child).map_err(io)?;
+        let Some(status) = status else {
+            return Err(RunError::Timeout(format!("{} {}", prog.display(), args.join(" "))));
         };
         PHASE_NS[2].fetch_add(t_child.elapsed().as_nanos() as u64, Ordering::Relaxed);
         let after = timed(1, || snapshot(&root)).map_err(io)?;
